@@ -194,6 +194,9 @@ fn btc_catalogue() -> Vec<Vec<u8>> {
     let mut t: Vec<Vec<u8>> = vec![];
     let k33 = rng.bytes(33); let k65 = rng.bytes(65); let h20 = rng.bytes(20);
     t.push([vec![33], k33.clone(), vec![0xac]].concat()); t.push([vec![65], k65.clone(), vec![0xac]].concat());
+    // P2PK keys that share bytes with the key of the script evaluated just before (each address depends on its own key only)
+    t.push([vec![33], k65[..33].to_vec(), vec![0xac]].concat()); t.push([vec![65], [k33.clone(), k65[33..].to_vec()].concat(), vec![0xac]].concat());
+    t.push([vec![65], k65.clone(), vec![0xac]].concat()); t.push([vec![33], k65[..33].to_vec(), vec![0xac]].concat()); t.push([vec![33], k33.clone(), vec![0xac]].concat());
     t.push([vec![0x76, 0xa9, 0x14], h20.clone(), vec![0x88, 0xac]].concat()); t.push([vec![0xa9, 0x14], h20.clone(), vec![0x87]].concat());
     for v in 0..=16u8 { for len in 2..=40usize { let mut s = vec![if v == 0 { 0 } else { 0x50 + v }, len as u8]; s.extend(rng.bytes(len)); t.push(s); } }
     for m in 0..=16u8 { for n in 0..=16u8 { for decl in [n, n.wrapping_add(1)] {
@@ -203,7 +206,7 @@ fn btc_catalogue() -> Vec<Vec<u8>> {
     // every opcode byte in the n position of `OP_m <k keys> <n> OP_CHECKMULTISIG` (k = 1..=3, m = 1)
     for kk in 1..=3usize { for nop in 0..=255u8 { let mut s = vec![0x51]; for _ in 0..kk { s.push(33); s.extend(rng.bytes(33)); } s.push(nop); s.push(0xae); t.push(s); } }
     for txt in [&b"hello"[..], &[0x41; 75][..], &[0x42; 76][..], &[0x43; 80][..], &[0x44; 255][..], &[0x45; 300][..], "\u{4e16}\u{754c}".as_bytes(), &[0xff, 0xfe][..], &[][..],
-                &b"hi\xe2\x82"[..], &b"ok\xf0\x9f\x98"[..], &b"a\xc3"[..], &b"hi\xe2\x82A"[..], &b"\xe2\x82\xac ok"[..]] {
+                &b"hi\xe2\x82"[..], "caf\u{fffd} au lait".as_bytes(), &[0xef, 0xbf, 0xbd][..], &b"ok\xf0\x9f\x98"[..], &b"a\xc3"[..], &b"hi\xe2\x82A"[..], &b"\xe2\x82\xac ok"[..]] {
         for f in forms_for(txt.len()) { t.push([vec![0x6a], push(txt, f)].concat()); }
     }
     t.push(vec![0x6a]); t.push(vec![0x6a, 0x01, 0x41, 0x01, 0x42]); t.push(vec![0x6a, 0x51]); t.push(vec![0x6a, 0x4c]); t.push(vec![0x6a, 0x4c, 0x05, 0x41]);
